@@ -95,6 +95,8 @@ def specs(gen, base_seed, n):
         spec = gen(5000000 + base_seed * 1000 + k)
         k += 1
         spec['plan'] = [e for e in spec['plan'] if e['site'] != 'channel']
+        spec['opt'].pop('pm', None)          # (a real -D run would wait for a terminal)
+        spec['opt'].pop('relpath', None)
         spec['stubval'] = True
         out.append(spec)
     return out
